@@ -209,6 +209,28 @@ def check_case(case: dict, rng: random.Random, max_exhaustive: int) -> Tuple[Opt
         model_reqs.append({"op": "run", "mode": "async", "env": case["env"], "v": case["v"], "x": x_before,
                            "oracle": oracle.tables(case["v"], case["env"], x_before), "fuel": 400,
                            "_steps": steps})
+    # ---- (a'') "an equal input returns an equal result regardless of what was validated before": numbers that
+    # Python's `==` identifies across types (1, 1.0, Decimal(1), True) are validated before and after the history of
+    # their look-alikes; a result that changes in between is state keyed by equality leaking across calls; real code only
+    try:
+        import decimal as _dec
+        twins: List[Any] = []
+        for x in xs:
+            for a in (x if isinstance(x, (list, tuple)) else [x]):
+                if type(a) in (int, float, _dec.Decimal) and a == a and abs(a) < 10 ** 6 and a == int(a):
+                    twins += [t for t in (int(a), float(a), _dec.Decimal(int(a))) if type(t) is not type(a)]
+        twins = twins[:6]
+        if twins:
+            fresh2 = build.build(ctx, case["v"], case["env"])
+            first = [canon_res(ctx, solo(fresh2, t)[0]) for t in twins]
+            for x in xs:
+                solo(fresh2, x)
+            for t, r0 in zip(twins, first):
+                if canon_res(ctx, solo(fresh2, t)[0]) != r0:
+                    fails.append(f"the result for {t!r} changed after equal values of another type had been validated")
+                    break
+    except Exception:  # noqa
+        pass
     # ---- (a') the caller's objects are left exactly as they were, including instance state that is not a
     # declared field (what a cached_property or an ad-hoc attribute leaves in `__dict__`); real code only
     if '"inst"' in json.dumps(case["xs"]):
